@@ -126,4 +126,21 @@ out.append(proof('gen_jacobiSeq', 'jacobiSeq', '(a b x : K)', 'a b x', 'jacobi n
     {'init': ['exact P1', 'exact P2'],
      'step': ['exact h2', jac_v.replace('show 3 + m = (m+1) + 2 by omega', 'show m + 1 + 2 = (m+1) + 2 from rfl')]},
     jac_v, 'jacobi_seq', steppre=['have hc : (((3 + (m:ℤ) - 1 : ℤ)) : K) = ((m + 1 : ℕ) : K) + 1 := by push_cast; ring']))
+
+# Qbfs_seq (binder order of the generated definition: sqrt before ns; accessor names are written fully qualified in Props/C08.lean)
+qv = ('rw [h2, h3, h4, h1]; simp only [hev, qbfs]; rw [show 2 + m = (m+1) + 1 by omega, C07L.qbfsPQ_step sqrt (x*x) (m+1)]; '
+      'simp only [C07L.qbfsPQ_step sqrt (x*x) m, eg, eh, ef, pow_two, nat_eq, Nat.cast_one]')
+out.append(proof('gen_qbfsSeq', 'qbfsSeq', '(sqrt : K → K) (x : K)', 'x', 'qbfs sqrt n x', 'qbfsRec_eval sqrt x n', 'qbfsRec',
+    ['have E0 : x ^ 2 * (1 - x ^ 2) = ev 0 := by simp [hev, qbfs, qbfsPQ, pow_two]',
+     'have E1 : 1 / sqrt 19 * (13 - 16 * x ^ 2) * (x ^ 2 * (1 - x ^ 2)) = ev 1 := by simp [hev, qbfs, qbfsPQ, C07L.qbfsPQ_step, pow_two]'],
+    [(0, 'exact E0'), (1, 'exact E1')], 2,
+    [('Pnm2', '(qbfsPQ sqrt (x*x) m).1'), ('Pnm1', '(qbfsPQ sqrt (x*x) m).2.1'), ('Qnm2', '(qbfsPQ sqrt (x*x) m).2.2.1'), ('Qnm1', '(qbfsPQ sqrt (x*x) m).2.2.2')],
+    {'init': ['simp [qbfsPQ]', 'simp [qbfsPQ, pow_two]', 'simp [qbfsPQ]', 'simp [qbfsPQ, pow_two]'],
+     'step': ['rw [h2, C07L.qbfsPQ_step]', 'rw [h1, h2, C07L.qbfsPQ_step]; simp only [pow_two]', 'rw [h4, C07L.qbfsPQ_step]',
+              'rw [h1, h2, h3, h4, C07L.qbfsPQ_step]; simp only [eg, eh, ef, pow_two]']},
+    qv, 'Qbfs_seq', simp_extra=', npow_eq',
+    steppre=['have eg : qbfsGi sqrt (2 + (m:ℤ) - 1) = qbfsG sqrt (m+1) := by simp only [qbfsGi]; congr 1; omega',
+             'have eh : qbfsHi sqrt (2 + (m:ℤ) - 2) = qbfsH m (qbfsF sqrt m) := by\n          have : (2 + (m:ℤ) - 2).toNat = m := by omega\n          simp only [qbfsHi, this]',
+             'have ef : qbfsFi sqrt (2 + (m:ℤ)) = qbfsF sqrt (m+2) := by simp only [qbfsFi]; congr 1; omega']
+    ).replace('Generated.C08.qbfsSeq ns x', 'Generated.C08.qbfsSeq sqrt ns x'))
 open('seq_section.txt', 'w').write('\n\n'.join(out) + '\n')
